@@ -54,7 +54,7 @@ PROPS["C01"] = {
              "outside,...} excluding dst, before vs after Unpack, whatever Unpack returns. Non-trivial = some entry name or link target "
              "leaves dst lexically, an entry sits at or below an earlier link's name, or the stream is faulted; distinct by case hash."),
     "assumptions": ["dst exists and contains no symlinks placed by the caller", "atime is ignored (the snapshot walk itself changes it)"],
-    "quick": [rapid("rapid", "^TestPropContainment$", 1800, shards=4)],
+    "quick": [rapid("rapid", "^TestPropContainment$", 2500, shards=4)],
     "thorough": [rapid("rapid", "^TestPropContainment$", 30000, shards=14), fuzz("FuzzUnpackContainment", "120s")],
 }
 
@@ -106,4 +106,21 @@ PROPS["C15"] = {
     "thorough": [plain("exh-root", "^TestExhaustive$", shards=6, env={"VERIF_C15_MAXLEN": 4}),
                  plain("exh-unpriv", "^TestExhaustive$", shards=6, uid=65534, env={"VERIF_C15_MAXLEN": 4}),
                  rapid("rapid-root", "^TestProp", 15000, shards=8), rapid("rapid-unpriv", "^TestProp", 15000, shards=4, uid=65534)],
+}
+
+PROPS["C12"] = {
+    "pkg": "c12",
+    "level": "fault_enumeration",
+    "rule": ("Per generated subject every fault position is enumerated: (a) for a generated tree, Pack into a writer that fails (short write + "
+             "error) at EVERY byte offset of the clean output (<=4KiB; every Write-call boundary +-1 and midpoint beyond) must return a "
+             "non-nil, non-IllegalSlug error; (b) for a generated well-formed archive, Unpack from a reader that is truncated or returns an "
+             "error at EVERY byte offset (also with 1-, 7- and 512-byte reads) must return a non-policy error, or - if nil - the destination "
+             "equals the tree of the complete archive; policy rejections (escaping names and links) must be *IllegalSlugError; (c) bundle "
+             "builds: see DESIGN. Non-trivial = a fault that lands after progress was made (offset>0 for writers, >20 bytes for readers) / a "
+             "policy rejection; distinct = (subject hash, offset, kind)."),
+    "assumptions": ["a crash is modelled as an observation at a callback boundary, not a kill between two syscalls"],
+    "quick": [rapid("packwriter", "^TestPropPackWriter$", 12, shards=3), rapid("unpackreader", "^TestPropUnpackReader$", 12, shards=3),
+              rapid("policy", "^TestPropPolicy$", 600, shards=1)],
+    "thorough": [rapid("packwriter", "^TestPropPackWriter$", 150, shards=7), rapid("unpackreader", "^TestPropUnpackReader$", 150, shards=7),
+                 rapid("policy", "^TestPropPolicy$", 20000, shards=1)],
 }
